@@ -117,12 +117,26 @@ def one_case(ctx, case: dict):
 
 
 def assoc_case(ctx, d, case):
-    """Base + associated file per input; both merged separately; opened together."""
+    """Base + associated file per input; both merged separately; opened together.
+    With case['resplit'] the associated store is merged from a *second run* over the same trajectories that was split into
+    files at other points (same number of files): the library accepts this (an associated file only records the identity of
+    the base field set), and C09 says each merged store equals the concatenation of its own inputs (seed C09_4)."""
     from AEIC.trajectories import TrajectoryStore
 
     stores = case['stores']
     s0 = RealStore(d)
     exp = []
+    flat = [a for st in stores for a in st['adds']]
+    sizes = [len(st['adds']) for st in stores]
+    sizes_b = list(sizes)
+    if case.get('resplit') and len(sizes) >= 2:
+        # move one trajectory across the first boundary that allows it
+        for j in range(len(sizes) - 1):
+            if sizes_b[j] >= 1:
+                sizes_b[j] -= 1
+                sizes_b[j + 1] += 1
+                break
+    pos = 0
     for j, st in enumerate(stores):
         ts = TrajectoryStore.create(base_file=d / f'b{j}.nc', associated_files=[(d / f'a{j}.nc', ['c07_extra'])])
         for a in st['adds']:
@@ -130,12 +144,23 @@ def assoc_case(ctx, d, case):
             ts.add(t)
             exp.append((f"t{a['tag']}", float(t.x1[-1])))
         ts.close()
+    assoc_names = [f'a{j}.nc' for j in range(len(stores))]
+    if sizes_b != sizes:
+        assoc_names = []
+        for j, nb in enumerate(sizes_b):
+            ts = TrajectoryStore.create(base_file=d / f'rb{j}.nc', associated_files=[(d / f'ra{j}.nc', ['c07_extra'])])
+            for a in flat[pos:pos + nb]:
+                ts.add(s0.make(a['tag'], a['npts'], a['fid'], extra=True))
+            pos += nb
+            ts.close()
+            assoc_names.append(f'ra{j}.nc')
+        ctx.count('variant:assoc_resplit')
     gc.collect()
     r1 = do_merge(d, 'base.aeic-store', [f'b{j}.nc' for j in range(len(stores))])
-    r2 = do_merge(d, 'assoc.aeic-store', [f'a{j}.nc' for j in range(len(stores))])
-    key = {'variant': 'assoc', 'layout': [[(a['npts'], a['fid']) for a in s['adds']] for s in stores]}
+    r2 = do_merge(d, 'assoc.aeic-store', assoc_names)
+    key = {'variant': 'assoc', 'layout': [[(a['npts'], a['fid']) for a in s['adds']] for s in stores], 'sizes_b': sizes_b}
     ctx.case(json.dumps(key, sort_keys=True), nontrivial=len(stores) >= 2,
-             sample={'variant': 'assoc', 'sizes': [len(s['adds']) for s in stores], 'result': [r1, r2]})
+             sample={'variant': 'assoc', 'sizes': sizes, 'assoc_sizes': sizes_b, 'result': [r1, r2]})
     ctx.count('variant:assoc')
     if (r1, r2) != ('ok', 'ok'):
         ctx.clause_fail('merge_succeeds', {**case, 'impl_result': [r1, r2]}, detail='merge of base/associated files failed')
@@ -150,7 +175,7 @@ def assoc_case(ctx, d, case):
         ts.close()
     except Exception as e:  # noqa: BLE001
         ctx.clause_fail('merged_associated_aligned', {**case, 'error': err_kind(e)},
-                        detail='opening merged base + merged associated stores failed')
+                        detail='opening / reading merged base + merged associated stores failed')
         return
     finally:
         gc.collect()
@@ -275,7 +300,7 @@ def gen_case_plain(rng):
         for n, a in enumerate(stores[j]['adds']):
             a['fid'] = None if indexed else 5000 + 10 * j + n
     return {'stores': stores, 'mode': mode, 'cache_mb': int(rng.choice([1, 64])), 'variant': variant,
-            'pattern': [fmt, [lo, lo + k - 1]]}
+            'pattern': [fmt, [lo, lo + k - 1]], 'resplit': bool(variant == 'assoc' and rng.random() < 0.6)}
 
 
 def main(ctx):
@@ -299,7 +324,7 @@ def replay(ctx, path):
     aeic_setup()
     j = json.loads(open(path).read())
     case = j.get('first', j).get('case', j)
-    case = {k: case[k] for k in ('stores', 'mode', 'cache_mb', 'variant', 'pattern') if k in case}
+    case = {k: case[k] for k in ('stores', 'mode', 'cache_mb', 'variant', 'pattern', 'resplit') if k in case}
     one_case(ctx, case)
     for v in ctx.violations:
         print('REPLAY-FAIL', v['clause'], v['detail'])
